@@ -197,6 +197,180 @@ theorem C06_structure_preserved_partial (v : List Node) (hshape : shapeKids [[]]
     parse (toHtml v) = some (structureOf v) :=
   C06_structure_preserved v (wf_of_shape_kids v [[]] hshape hclean hraw)
 
+
+/-! ## typed children and child containers (`VNode`)
+
+`VNode` adds to the embedding: every string *type* in text position (`text`), primitives printed with
+`Display` and never escaped (`prim`: `char`, numbers, `bool`, addresses), tuples / arrays / `StaticVec` /
+`Fragment` (`seq`), `Vec` with its trailing marker (`vec`), `()` / `Option::None` (`unit`);
+`Some`, `Either::Left/Right`, `AnyView` are transparent.  Attribute, class and style value *types*
+(`&str String Arc<str> Cow Oco char` numbers, closures, `Option<…>`) all reduce to the `Attr` kinds:
+they print `escape_attr` of the `Display` text (`None`: nothing; `class(None)`: an empty class item). -/
+
+/-- **structure preserved, extended views**: as `C06_structure_preserved`, for views that also contain
+containers (`seq`, `vec`, `unit`) at any depth and primitives whose text has no `<`, `&`, NUL, CR. -/
+theorem C06_view_structure_preserved (v : List VNode) (h : vwfKids [[]] v = true) :
+    parse (vToHtml v) = some (vStructureOf v) := by
+  have := (run_vkids v rootFrame [] .firstChild h (by decide) (by decide)).1
+  unfold parse initState vToHtml
+  rw [this]
+  simp [finish, rootFrame, vStructureOf]
+
+def vTitleShape : List VNode → Bool
+  | [] => true
+  | [.text _] => true
+  | _ => false
+
+mutual
+/-- only strings, primitives and containers (what may stand inside a raw-text element) -/
+def vLeafOnly : VNode → Bool
+  | .elem .. => false
+  | .seq ks => vLeafOnlyKids ks
+  | .vec ks => vLeafOnlyKids ks
+  | _ => true
+def vLeafOnlyKids : List VNode → Bool
+  | [] => true
+  | n :: ns => vLeafOnly n && vLeafOnlyKids ns
+end
+
+mutual
+/-- view shapes of the extended embedding (no condition on any string) -/
+def vShapeNode (anc : List Str) : VNode → Bool
+  | .text _ => true
+  | .prim s => s != []
+  | .elem tag attrs kids =>
+    attrsShape attrs && nestOK tag anc &&
+      ((genericOK tag && vShapeKids (tag :: anc) kids) || (voidOK tag && kids.isEmpty) ||
+       (rawLike tag && !escapeChildren tag && vLeafOnlyKids kids) || (tag = tTitle && vTitleShape kids))
+  | .seq ks => vShapeKids anc ks
+  | .vec ks => vShapeKids anc ks
+  | .unit => true
+def vShapeKids (anc : List Str) : List VNode → Bool
+  | [] => true
+  | n :: ns => vShapeNode anc n && vShapeKids anc ns
+end
+
+mutual
+/-- no NUL/CR in any string; primitives additionally without `<` and `&` (only a `char` can have one) -/
+def vCleanNode : VNode → Bool
+  | .text s => clean s
+  | .prim s => titleInert s
+  | .elem _ attrs kids => attrs.all attrValClean && vCleanKids kids
+  | .seq ks => vCleanKids ks
+  | .vec ks => vCleanKids ks
+  | .unit => true
+def vCleanKids : List VNode → Bool
+  | [] => true
+  | n :: ns => vCleanNode n && vCleanKids ns
+end
+
+mutual
+theorem vBlank_of_noText : (n : VNode) → vLeafOnly n = true → vHasText n = false → vBlank false n = true
+  | .text _, _, h => by simp [vHasText] at h
+  | .prim _, _, h => by simp [vHasText] at h
+  | .elem .., h, _ => by simp [vLeafOnly] at h
+  | .seq ks, h1, h2 => by
+    simpa [vBlank] using vBlankKids_of_noText ks (by simpa [vLeafOnly] using h1) (by simpa [vHasText] using h2)
+  | .vec ks, h1, h2 => by
+    simpa [vBlank] using vBlankKids_of_noText ks (by simpa [vLeafOnly] using h1) (by simpa [vHasText] using h2)
+  | .unit, _, _ => by simp [vBlank]
+theorem vBlankKids_of_noText : (ns : List VNode) → vLeafOnlyKids ns = true → vHasTextKids ns = false →
+    vBlankKids false ns = true
+  | [], _, _ => by simp [vBlankKids]
+  | n :: ns, h1, h2 => by
+    simp only [vLeafOnlyKids, Bool.and_eq_true] at h1
+    simp only [vHasTextKids, Bool.or_eq_false_iff] at h2
+    simp [vBlankKids, vBlank_of_noText n h1.1 h2.1, vBlankKids_of_noText ns h1.2 h2.2]
+end
+
+
+mutual
+theorem vwf_of_shape_node : (n : VNode) → ∀ (anc : List Str), vShapeNode anc n = true → vCleanNode n = true →
+    vRawTextFree n = true → vwfNode anc n = true
+  | .text s, _, _, hc, _ => by simpa [vwfNode, vCleanNode] using hc
+  | .prim s, _, hs, hc, _ => by
+    simp only [vShapeNode] at hs
+    simp only [vCleanNode] at hc
+    simp [vwfNode, hs, hc]
+  | .elem tag attrs kids, anc, hs, hc, hr => by
+    simp only [vShapeNode, Bool.and_eq_true, Bool.or_eq_true] at hs
+    simp only [vCleanNode, Bool.and_eq_true] at hc
+    simp only [vRawTextFree, Bool.and_eq_true, Bool.or_eq_true] at hr
+    obtain ⟨⟨hattrs, hnest⟩, hcase⟩ := hs
+    have hao := attrsOK_of attrs hattrs hc.1
+    simp only [vwfNode, Bool.and_eq_true, Bool.or_eq_true, hao, hnest, true_and]
+    rcases hcase with ((⟨hg, hk⟩ | hv) | ⟨⟨hraw, hesc⟩, hleaf⟩) | ⟨ht, hts⟩
+    · exact Or.inl (Or.inl (Or.inl ⟨hg, vwf_of_shape_kids kids (tag :: anc) hk hc.2 hr.2⟩))
+    · exact Or.inl (Or.inl (Or.inr hv))
+    · have hesc' : escapeChildren tag = false := by simpa using hesc
+      have hnt : vHasTextKids kids = false := by
+        rcases hr.1 with h | h
+        · rw [hesc'] at h; exact absurd h (by simp)
+        · simpa using h
+      refine Or.inl (Or.inr ⟨hraw, ?_⟩)
+      rw [hesc']
+      exact vBlankKids_of_noText kids hleaf hnt
+    · match kids, hts, hc with
+      | [], _, _ =>
+        simp only [decide_eq_true_eq] at ht
+        subst ht
+        exact Or.inl (Or.inr ⟨by decide, by simp [vBlankKids]⟩)
+      | [.text s], _, hc =>
+        refine Or.inr ⟨ht, ?_⟩
+        simpa [vTitleKids, vCleanKids, vCleanNode] using hc.2
+  | .seq ks, anc, hs, hc, hr => by
+    simpa [vwfNode] using vwf_of_shape_kids ks anc (by simpa [vShapeNode] using hs)
+      (by simpa [vCleanNode] using hc) (by simpa [vRawTextFree] using hr)
+  | .vec ks, anc, hs, hc, hr => by
+    simpa [vwfNode] using vwf_of_shape_kids ks anc (by simpa [vShapeNode] using hs)
+      (by simpa [vCleanNode] using hc) (by simpa [vRawTextFree] using hr)
+  | .unit, _, _, _, _ => by simp [vwfNode]
+theorem vwf_of_shape_kids : (ns : List VNode) → ∀ (anc : List Str), vShapeKids anc ns = true → vCleanKids ns = true →
+    vRawTextFreeKids ns = true → vwfKids anc ns = true
+  | [], _, _, _, _ => by simp [vwfKids]
+  | n :: ns, anc, hs, hc, hr => by
+    simp only [vShapeKids, vCleanKids, vRawTextFreeKids, Bool.and_eq_true] at hs hc hr
+    simp only [vwfKids, Bool.and_eq_true]
+    exact ⟨vwf_of_shape_node n anc hs.1 hc.1 hr.1, vwf_of_shape_kids ns anc hs.2 hc.2 hr.2⟩
+end
+
+/-- **structure preserved, extended views, partial**: every shape with containers at any depth and
+every string, except a string directly inside a raw-text element (F-C06-1; through containers too),
+NUL / CR (F-C06-3/4) and — correspondence-only, not a finding — a `char` child `<` or `&`. -/
+theorem C06_view_structure_preserved_partial (v : List VNode) (hshape : vShapeKids [[]] v = true)
+    (hraw : vRawTextFreeKids v = true) (hclean : vCleanKids v = true) :
+    parse (vToHtml v) = some (vStructureOf v) :=
+  C06_view_structure_preserved v (vwf_of_shape_kids v [[]] hshape hclean hraw)
+
+/-- **the extended full statement is refuted the same way** (a `Vec<String>` child of `<textarea>`) -/
+theorem C06_view_raw_text_child_witness :
+    vShapeKids [[]] [.elem tTextarea [] [.vec [.text payloadTextarea]]] = true ∧
+    parse (vToHtml [.elem tTextarea [] [.vec [.text payloadTextarea]]]) =
+      some [.elem tTextarea [] [],
+            .elem sImg [(['s','r','c'], ['x']),
+                        (['o','n','e','r','r','o','r'], ['a','l','e','r','t','(','1',')'])] [],
+            .elem tTextarea [] []] := by
+  decide
+
+/-- the model prints the containers as tachys does: `Vec` ends in a marker, adjacent strings inside and
+across containers are separated by markers, `None` is a marker, arrays/tuples add nothing -/
+example : vToHtml [.elem ['p'] [] [.vec [.text ['a'], .text ['<']], .seq [.text ['b'], .prim ['7']], .unit, .text ['c']]] =
+    ['<','p','>','a','<','!','>','&','l','t',';','<','!','>','b','<','!','>','7','<','!','>','c','<','/','p','>'] := by
+  decide
+
+example : vwfKids [[]] [.elem ['p'] [] [.vec [.text ['a'], .text ['<','/','p','>']], .seq [.text ['b'], .prim ['7']], .unit, .text ['c']]] = true := by
+  decide
+
+/-- correspondence-only: a `char` child `<` or `&` is printed raw; the output is malformed (a parse
+error the standard recovers from) but still denotes the same text — checked by evaluation per case,
+not covered by `C06_view_structure_preserved` (whose hypothesis excludes it) -/
+example : vwfKids [[]] [.elem sDiv [] [.prim ['<'], .text ['b']]] = false ∧
+    vToHtml [.elem sDiv [] [.prim ['<'], .text ['b'], .prim ['&']]] =
+      ['<','d','i','v','>','<','<','!','>','b','<','!','>','&','<','/','d','i','v','>'] ∧
+    parse (vToHtml [.elem sDiv [] [.prim ['<'], .text ['b'], .prim ['&']]]) =
+      some (vStructureOf [.elem sDiv [] [.prim ['<'], .text ['b'], .prim ['&']]]) := by
+  decide
+
 /-! ## the element table: `genericOK` is just `kind = generic` -/
 
 theorem contains_dash_of_custom {t : Str} (h : isCustomTag t = true) : t.contains '-' = true := by
@@ -249,18 +423,6 @@ theorem genericOK_of_kind {t : Str} (h : kind t = .generic) : genericOK t = true
     · intro e; subst e; revert hd; decide
 
 /-! ## document head (leptos_meta) -/
-
-theorem run_inert (s : Str) : ∀ (f : Frame) (fs : List Frame), escMode (f :: fs) → titleInert s = true →
-    run ⟨.text, f :: fs⟩ s = some ⟨.text, { f with kidsRev := pushStrKids s f.kidsRev } :: fs⟩ := by
-  induction s with
-  | nil => intro f fs _ _; simp [run, pushStrKids]
-  | cons c cs ih =>
-    intro f fs hm h
-    simp only [titleInert, List.all_cons, Bool.and_eq_true, bne_iff_ne, ne_eq] at h
-    obtain ⟨⟨⟨⟨h0, hr⟩, hl⟩, ha⟩, hcs⟩ := h
-    have hm' : escMode ({ f with kidsRev := pushCharKids c f.kidsRev } :: fs) := hm
-    simp only [run, step_text_plain hm h0 hr ha hl, pushStrKids]
-    exact ih _ fs hm' (by simpa [titleInert] using hcs)
 
 theorem run_headMarker {f : Frame} {fs : List Frame} (hm0 : modeOfTag f.tag = .data) :
     run ⟨.text, f :: fs⟩ sHeadMarker =
